@@ -169,6 +169,8 @@ fn replay_json(seed: &[Argv], inst: &Argv) -> serde_json::Value {
     })
 }
 
+vh::use_jemalloc!();
+
 fn main() {
     let args = cli::parse_args();
     vh::quiet_panics();
